@@ -153,7 +153,7 @@ public:
     auto stamp = block->stamp.load(std::memory_order_relaxed);
     assert((stamp & (PendingPush | NotInList)) == 0);
     // set the NotInList flag to signal that this block is no longer part of the queue
-    block->stamp.store(stamp + NotInList, std::memory_order_relaxed);
+    block->stamp.store(stamp + NotInList, std::memory_order_release);
 
     bool wasTail = block->prev.load(std::memory_order_relaxed).get() == tail;
     if (wasTail) {
@@ -220,7 +220,7 @@ private:
     auto last = tail->next.load(std::memory_order_acquire);
     // (15) - this acquire-load synchronizes-with the release-stores (4, 5, 9, 21, 28)
     auto last_prev = last->prev.load(std::memory_order_acquire);
-    auto last_stamp = last->stamp.load(std::memory_order_relaxed);
+    auto last_stamp = last->stamp.load(std::memory_order_acquire);
     if (last_stamp > stamp && last_prev.get() == tail && tail->next.load(std::memory_order_relaxed) == last) {
       assert((last_stamp & PendingPush) == 0);
       assert((last_stamp & NotInList) == 0);
